@@ -82,7 +82,8 @@ def event(op, path, can_error=True, path2=None):
     if SIM.listener is not None:
         SIM.listener(label)
     f = SIM.fault
-    if f is not None and f.get("persistent") and f["kind"] == "io_error" and k > f["at"] and SIM.fired is not None and can_error:
+    if f is not None and f.get("persistent") and f["kind"] == "io_error" and k > f["at"] and SIM.fired is not None and can_error \
+            and op in ("write", "twrite", "tofile", "close", "copy"):
         # the condition persists (disk full, dead mount): every later operation that can fail, fails
         SIM.fired["repeats"] = SIM.fired.get("repeats", 0) + 1
         raise OSError(f.get("errno", errno.ENOSPC), "simulated persistent I/O error", label)
